@@ -25,3 +25,5 @@ func verifOnGet(*bytes.Buffer) {}
 func verifOnPut(*bytes.Buffer) {}
 
 func verifYield(string) {}
+
+func verifOnCodec(bool, any) {}
